@@ -49,6 +49,11 @@ impl SwiftField for Field52A {
         }
 
         let bic = parse_bic(lines[bic_line_idx])?;
+        if lines.len() > bic_line_idx + 1 {
+            return Err(ParseError::InvalidFormat {
+                message: "Field 52A has no line after the BIC".to_string(),
+            });
+        }
 
         Ok(Field52A {
             party_identifier,
